@@ -120,21 +120,21 @@ type half struct {
 	mu  sync.Mutex
 	c   *sync.Cond
 
-	buf       []byte
-	readOff   int64
-	queue     []*Item
-	queued    int
-	total     int64
-	wire      []byte
-	marks     []Mark
-	werr      error // writes fail
-	rerr      error // reads fail after draining
-	eof       bool
-	seg       SegFunc
-	rdl       time.Time
-	rtimer    *time.Timer
-	cutAt     int64
-	cutKind   string
+	buf        []byte
+	readOff    int64
+	queue      []*Item
+	queued     int
+	total      int64
+	wire       []byte
+	marks      []Mark
+	werr       error // writes fail
+	rerr       error // reads fail after draining
+	eof        bool
+	seg        SegFunc
+	rdl        time.Time
+	rtimer     *time.Timer
+	cutAt      int64
+	cutKind    string
 	readerGone bool
 }
 
